@@ -399,7 +399,8 @@ func runCall(t *testing.T, e *env, tr sink, sid int, c drv.Step, rep int, sh *sh
 		vs    []*validator
 		lists [][]core.ParSignedData
 	)
-	for _, lv := range vals {
+	same, _ := c["samecontent"].(bool) // every validator of the call signs the same content (one signing root for all)
+	for range vals {
 		secret, err := tbls.GenerateSecretKey()
 		if err != nil {
 			fatalf("secret: %v", err)
@@ -412,18 +413,35 @@ func runCall(t *testing.T, e *env, tr sink, sid int, c drv.Step, rep int, sh *sh
 		if err != nil {
 			fatalf("pubkey: %v", err)
 		}
-		v := &validator{pub: pub, corePub: core.PubKeyFrom48Bytes(pub), shares: shares, objs: map[string]obj{
-			"A": e.build(t, typ, ver, esrc, own, other, false),
-			"B": e.build(t, typ, ver, esrc, own, other, true),
-		}}
+		v := &validator{pub: pub, corePub: core.PubKeyFrom48Bytes(pub), shares: shares}
+		if same && len(vs) > 0 {
+			v.objs = vs[0].objs
+		} else {
+			v.objs = map[string]obj{
+				"A": e.build(t, typ, ver, esrc, own, other, false),
+				"B": e.build(t, typ, ver, esrc, own, other, true),
+			}
+		}
 		vs = append(vs, v)
+	}
+	for vi, lv := range vals {
+		v := vs[vi]
+		shares := v.shares
 		var list []core.ParSignedData
 		for _, lp := range lv.([]any) {
 			p := lp.(map[string]any)
 			idx, by := drv.Num(p["idx"]), drv.Num(p["by"])
 			content, over := drv.Str(p["content"]), drv.Str(p["over"])
 			key, ok := shares[by]
+			if xv, has := p["xval"]; has && !ok {
+				// a key outside THIS validator's shares that is another validator's share of the same call (a peer whose
+				// share keys for two validators are crossed)
+				if j := drv.Num(xv); j >= 0 && j < len(vs) && j != vi {
+					key, ok = vs[j].shares[drv.Num(p["xby"])]
+				}
+			}
 			if !ok { // a key outside the cluster
+				var err error
 				if key, err = tbls.GenerateSecretKey(); err != nil {
 					fatalf("outside key: %v", err)
 				}
